@@ -515,7 +515,7 @@ def _result_unwrap_or_else(it, st, args, ctx):
     return outs
 
 
-@summary(r'^bool::then_some::<')
+@summary(r'^bool::then_some::<|^core::bool::<impl bool>::then_some::<')
 def _then_some(it, st, args, ctx):
     return mk_option(args[0], args[1])
 
